@@ -434,3 +434,79 @@ def accessors_return_field(ctx, rr, owners):
         else:
             rr.fail("accessor-alters-field:%s" % shortfn(bid), "`%s` does not return the `%s` field as it is (%s): callers that set or signed the field and read it back through the accessor see something else" % (shortfn(bid), last, og.show(ctx.og.local(b, 0))[:70]), where=b.span)
     return n
+
+
+# ------------------------------------------------------------------------------------------------------------------
+# a tiny evaluator for unsigned 32-bit origin terms: a comparison extracted from the code is judged on a grid of
+# boundary points instead of by its spelling, so `h >= e.saturating_add(d)`, `h.checked_sub(e).map_or(false, ..)`-free
+# rewrites and `h - d >= e`-style rearrangements are accepted or refused for what they compute
+U32 = 1 << 32
+
+
+class Wraps(Exception):
+    """the term contains a plain +, - or * that leaves the u32 range at this point (wraps in release, panics in debug)"""
+
+
+def eval_u32(term, leaf):
+    """value of an integer origin term; `leaf(term)` gives the value of a parameter / field or None.
+    returns an int, or None when the term uses something this evaluator does not know; raises Wraps"""
+    v = leaf(term)
+    if v is not None:
+        return v
+    if not (isinstance(term, tuple) and term):
+        return None
+    k = term[0]
+    if k == "const":
+        try:
+            return int(term[1])
+        except (TypeError, ValueError):
+            d = str(term[2] or "")
+            return U32 - 1 if d.endswith("u32::MAX") or d.endswith("::MAX") and "u32" in d else None
+    if k == "cast":
+        return eval_u32(term[1], leaf)
+    if k == "proj":
+        # (a + b) in a build with overflow checks is AddWithOverflow(a, b).0
+        if term[2] in (("f:0",),) and isinstance(term[1], tuple) and term[1][0] == "bin":
+            return eval_u32(term[1], leaf)
+        if isinstance(term[1], tuple) and term[1][0] == "call" and term[2] == ("v:Some", "f:0"):
+            return None
+        return None
+    if k == "bin":
+        a, b = eval_u32(term[2], leaf), eval_u32(term[3], leaf)
+        if a is None or b is None:
+            return None
+        op = term[1].replace("WithOverflow", "").replace("Unchecked", "")
+        r = {"Add": a + b, "Sub": a - b, "Mul": a * b}.get(op)
+        if r is None:
+            return None
+        if not 0 <= r < U32:
+            raise Wraps(op)
+        return r
+    if k in ("call", "ret"):
+        name = term[1] if isinstance(term[1], str) else ""
+        args = term[2] if k == "call" else (term[4] if len(term) > 4 else ())
+        tail = name.split("::")[-1]
+        if tail in ("saturating_add", "saturating_sub", "wrapping_add", "wrapping_sub", "min", "max", "abs_diff") and len(args) == 2:
+            a, b = eval_u32(args[0], leaf), eval_u32(args[1], leaf)
+            if a is None or b is None:
+                return None
+            return {"saturating_add": min(a + b, U32 - 1), "saturating_sub": max(a - b, 0), "wrapping_add": (a + b) % U32,
+                    "wrapping_sub": (a - b) % U32, "min": min(a, b), "max": max(a, b), "abs_diff": abs(a - b)}[tail]
+        if tail in ("unwrap_or",) and len(args) == 2 and isinstance(args[0], tuple) and args[0][0] == "call" \
+                and args[0][1].split("::")[-1] in ("checked_add", "checked_sub") and len(args[0][2]) == 2:
+            a, b = eval_u32(args[0][2][0], leaf), eval_u32(args[0][2][1], leaf)
+            d = eval_u32(args[1], leaf)
+            if a is None or b is None or d is None:
+                return None
+            r = a + b if args[0][1].endswith("checked_add") else a - b
+            return r if 0 <= r < U32 else d
+    return None
+
+
+def eval_u32_rel(rel, leaf):
+    """truth of (op, lhs, rhs) at a point; None if unknown; raises Wraps"""
+    op, l, r = rel
+    a, b = eval_u32(l, leaf), eval_u32(r, leaf)
+    if a is None or b is None:
+        return None
+    return {"Lt": a < b, "Le": a <= b, "Gt": a > b, "Ge": a >= b, "Eq": a == b, "Ne": a != b}[op]
